@@ -91,7 +91,7 @@ def T(what):
 PROPS = {
     "C01": dict(
         streams=[S("array", n_quick=250), S("array_sized", n_quick=250)],
-        relevant=rel_content, extra_lean=["CollectionsC/Properties/C01Sized.lean"],
+        relevant=rel_content,
         level_text=T("invariant preservation and refinement of every array / sized-array operation to an ideal list, for all histories, indices, element values, capacities >= 1 and growth functions."),
         level_note=LN + "Float growth enters the theorems as an arbitrary function `grow`; qsort is a parameter with its assumed spec.",
     ),
@@ -215,4 +215,4 @@ PROPS = {
 NOT_APPLICABLE = {}
 
 # properties configured above but not yet registered in MANIFEST.json (work in progress)
-HOLD = set(PROPS) - {"C19", "C12", "C13", "C11", "C03", "C17"}
+HOLD = set(PROPS) - {"C19", "C12", "C13", "C11", "C03", "C17", "C05", "C04", "C10", "C01", "C09"}
